@@ -129,7 +129,7 @@ Section FSProofs.
     rewrite forallb_forall in Hwf. apply Hwf. now apply prefixes_self.
   Qed.
 
-  Lemma is_dir_app fs l d : is_dir (mkfs (dirs fs ++ l) (files fs)) d = is_dir fs d || existsb (path_eqb d) l.
+  Lemma is_dir_app fs l (fl : list (path * C)) d : is_dir (mkfs (dirs fs ++ l) fl) d = is_dir fs d || existsb (path_eqb d) l.
   Proof. unfold is_dir. cbn. apply existsb_app. Qed.
 
   Theorem to_fits_meets_spec fs p ow c :
@@ -212,4 +212,210 @@ Section FSProofs.
       rewrite (filter_absent _ _ Hlk).
       destruct d; [|rewrite Hdirok]; unfold fs1; cbn [dirs files]; rewrite Hl; reflexivity.
   Qed.
+
+  (* ---- consequences, stated on the code's sequence ---- *)
+  Theorem to_fits_existing_without_overwrite fs p c :
+    fs_wf fs = true -> target_ok fs p = true -> is_file fs p = true ->
+    to_fits fs p false c = (fs, Some FileExists).
+  Proof. intros Hwf Hok Hf. rewrite to_fits_meets_spec by assumption. now apply write_spec_refuses. Qed.
+
+  Lemma existsb_filter_dirs fs q l :
+    is_dir fs q || existsb (path_eqb q) (filter (fun r => negb (is_dir fs r)) l) = is_dir fs q || existsb (path_eqb q) l.
+  Proof.
+    destruct (is_dir fs q) eqn:Eq; [reflexivity|]. cbn [orb].
+    induction l as [|r l IH]; [reflexivity|]. cbn [filter existsb].
+    destruct (is_dir fs r) eqn:Er; cbn [negb existsb].
+    - rewrite IH. destruct (path_eqb q r) eqn:E; [|reflexivity]. apply path_eqb_eq in E. congruence.
+    - now rewrite IH.
+  Qed.
+
+  Theorem to_fits_success fs p ow c :
+    fs_wf fs = true -> target_ok fs p = true -> fresh_or_overwrite fs p ow = true ->
+    exists fs', to_fits fs p ow c = (fs', None)
+      /\ lookup (files fs') p = Some c
+      /\ (forall q, q <> p -> lookup (files fs') q = lookup (files fs) q)
+      /\ (forall q, is_dir fs' q = is_dir fs q || existsb (path_eqb q) (prefixes (dirname p)))
+      /\ (dirname p = [] -> dirs fs' = dirs fs).
+  Proof.
+    intros Hwf Hok Hfo. rewrite to_fits_meets_spec, write_spec_accepts by assumption.
+    eexists. split; [reflexivity|]. cbn [files dirs]. repeat split.
+    - apply lookup_app_none, lookup_filter_same.
+    - intros q Hq. rewrite lookup_app_other by assumption. now apply lookup_filter_other.
+    - intros q. rewrite is_dir_app. apply existsb_filter_dirs.
+    - intros ->. cbn. apply app_nil_r.
+  Qed.
+
+  (* the states of a real directory tree are closed under the write *)
+  Lemma prefixes_trans d q r : In q (prefixes d) -> In r (prefixes q) -> In r (prefixes d).
+  Proof.
+    revert q r; induction d as [|x d IH]; intros q r Hq Hr; cbn in Hq; [contradiction|].
+    destruct Hq as [<-|Hq].
+    - cbn in Hr. destruct Hr as [<-|[]]. now left.
+    - apply in_map_iff in Hq. destruct Hq as [q' [<- Hq']]. cbn in Hr. destruct Hr as [<-|Hr]; [now left|].
+      apply in_map_iff in Hr. destruct Hr as [r' [<- Hr']]. right. apply in_map. now apply (IH q').
+  Qed.
+  Theorem write_spec_keeps_wf fs p ow c : fs_wf fs = true -> fs_wf (fst (write_spec fs p ow c)) = true.
+  Proof.
+    intros Hwf. unfold write_spec. destruct (is_file fs p && negb ow); [exact Hwf|]. cbn [fst].
+    set (fs' := mkfs _ _).
+    assert (Hmono : forall q, is_dir fs q = true -> is_dir fs' q = true).
+    { intros q Hq. unfold fs'. rewrite is_dir_app, Hq. reflexivity. }
+    assert (Hnew : forall q, In q (prefixes (dirname p)) -> is_dir fs' q = true).
+    { intros q Hq. unfold fs'. rewrite is_dir_app, existsb_filter_dirs. apply orb_true_iff. right.
+      apply existsb_exists. exists q. split; [assumption|apply path_eqb_refl]. }
+    unfold fs_wf in Hwf. apply andb_prop in Hwf. destruct Hwf as [Hd Hf].
+    rewrite forallb_forall in Hd, Hf.
+    unfold fs_wf. apply andb_true_intro. split; apply forallb_forall.
+    - intros d Hin. apply forallb_forall. intros q Hq. unfold fs' in Hin. cbn [dirs] in Hin.
+      apply in_app_or in Hin. destruct Hin as [Hin|Hin].
+      + apply Hmono. specialize (Hd _ Hin). rewrite forallb_forall in Hd. now apply Hd.
+      + apply filter_In in Hin. destruct Hin as [Hin _]. apply Hnew. now apply (prefixes_trans _ d).
+    - intros [q cq] Hin. cbn [fst]. apply forallb_forall. intros r Hr. unfold fs' in Hin. cbn [files] in Hin.
+      apply in_app_or in Hin. destruct Hin as [Hin|Hin].
+      + apply filter_In in Hin. destruct Hin as [Hin _]. apply Hmono. specialize (Hf _ Hin). cbn [fst] in Hf.
+        rewrite forallb_forall in Hf. now apply Hf.
+      + destruct Hin as [Hin|[]]. injection Hin as <- <-. now apply Hnew.
+  Qed.
+  Corollary to_fits_keeps_wf fs p ow c :
+    fs_wf fs = true -> target_ok fs p = true -> fs_wf (fst (to_fits fs p ow c)) = true.
+  Proof. intros Hwf Hok. rewrite to_fits_meets_spec by assumption. now apply write_spec_keeps_wf. Qed.
 End FSProofs.
+
+(* ================================================================== reading what was written *)
+Lemma py_nth_single {A} (h : A) k :
+  py_nth [h] k = if ((k =? 0) || (k =? -1))%Z then Some h else None.
+Proof.
+  unfold py_nth. cbn [length Z.of_nat].
+  destruct (Z.leb_spec 0 k) as [H0|H0].
+  - destruct (Z.eqb_spec k 0) as [->|Hk]; [reflexivity|].
+    destruct (Z.eqb_spec k (-1)) as [->|_]; [lia|]. cbn [orb].
+    destruct (Z.to_nat k) as [|n] eqn:E; [lia|]. now destruct n.
+  - destruct (Z.eqb_spec k 0) as [->|_]; [lia|].
+    destruct (Z.leb_spec (- Z.pos (Pos.of_succ_nat 0)) k) as [H1|H1].
+    + destruct (Z.eqb_spec k (-1)) as [->|Hk]; [reflexivity|]. lia.
+    + destruct (Z.eqb_spec k (-1)) as [->|Hk]; [lia|]. reflexivity.
+Qed.
+
+Section ReadBack.
+  Context {V X : Type}.
+  Implicit Types (fs : fitsfs V X) (h : hdu V X).
+  Definition sole_index (k : Z) : bool := ((k =? 0) || (k =? -1))%Z.
+  Lemma hdu_at_written fs p h k : lookup (files fs) p = Some [h] ->
+    hdu_at fs p k = if sole_index k then FOk h else FRaise IndexErr.
+  Proof.
+    intros H. unfold hdu_at, fits_open. rewrite H. cbn [fbind]. rewrite py_nth_single. unfold sole_index.
+    now destruct ((k =? 0) || (k =? -1))%Z.
+  Qed.
+End ReadBack.
+
+(* ================================================================== values at R *)
+Local Notation RO := ROps.
+Definition maskmul (v : R) (m : bool) : R := mul RO v (@tofloat RO (negb m)).
+
+Lemma tobool_tofloat b : @tobool RO (@tofloat RO b) = b.
+Proof.
+  unfold tobool, tofloat, zero, one. cbn [eqb RO ofZ]. unfold Reqb.
+  destruct b; destruct (Req_EM_T _ _) as [H|H]; cbn; try reflexivity; exfalso; lra.
+Qed.
+Lemma maskmul_false v : maskmul v false = v.
+Proof. unfold maskmul, tofloat, one. cbn. lra. Qed.
+Lemma Reqb_refl x : Reqb x x = true.
+Proof. unfold Reqb. destruct (Req_EM_T x x); [reflexivity|contradiction]. Qed.
+
+Lemma slim_row_maskmul (m : list bool) : forall v : list R, @slim_row RO m (map2 maskmul v m) = @slim_row RO m v.
+Proof.
+  induction m as [|b m IH]; intros [|x v]; try reflexivity.
+  cbn [map2 slim_row]. destruct b; [apply IH|]. now rewrite maskmul_false, IH.
+Qed.
+Lemma native_row_slim_row (m : list bool) : forall (v rest : list R), length v = length m ->
+  @native_row RO m (@slim_row RO m v ++ rest) = (@zero_fill_row RO m v, rest).
+Proof.
+  induction m as [|b m IH]; intros [|x v] rest Hl; cbn in Hl; try discriminate; [reflexivity|].
+  injection Hl as Hl. cbn [slim_row native_row zero_fill_row map2]. destruct b.
+  - rewrite (IH v rest Hl). reflexivity.
+  - cbn [app]. rewrite (IH v rest Hl). reflexivity.
+Qed.
+Lemma native_from_slim (m : list (list bool)) : forall (v : list (list R)) (rest : list R), same_len2 v m = true ->
+  @native_from RO m (concat (map2 (@slim_row RO) m v) ++ rest) = @zero_fill RO m v.
+Proof.
+  induction m as [|r m IH]; intros [|x v] rest H; cbn in H; try discriminate; [reflexivity|].
+  apply andb_prop in H. destruct H as [H1 H2]. apply Nat.eqb_eq in H1.
+  cbn [map2 concat native_from zero_fill]. rewrite <- app_assoc, (native_row_slim_row r x _ H1).
+  now rewrite (IH v rest H2).
+Qed.
+Lemma map2_maskmul_slim (m : list (list bool)) : forall v : list (list R),
+  map2 (@slim_row RO) m (map2 (map2 maskmul) v m) = map2 (@slim_row RO) m v.
+Proof.
+  induction m as [|r m IH]; intros [|x v]; try reflexivity.
+  cbn [map2]. now rewrite slim_row_maskmul, IH.
+Qed.
+
+Lemma same_len2_all_false {A} (v : list (list A)) : same_len2 v (all_false2 v) = true.
+Proof.
+  induction v as [|r v IH]; [reflexivity|]. cbn. rewrite map_length, Nat.eqb_refl. exact IH.
+Qed.
+Lemma zero_fill_row_all_false (r : list R) : @zero_fill_row RO (all_false1 r) r = r.
+Proof. induction r as [|x r IH]; [reflexivity|]. cbn. f_equal. exact IH. Qed.
+Lemma zero_fill_all_false (v : list (list R)) : @zero_fill RO (all_false2 v) v = v.
+Proof.
+  induction v as [|r v IH]; [reflexivity|]. cbn [all_false2 map zero_fill map2].
+  f_equal; [apply zero_fill_row_all_false|exact IH].
+Qed.
+
+(* ---- Array2D(values, mask): the native form is the input with zeros at the masked pixels ---- *)
+Theorem Array2D_new_native vals mask sc : same_len2 vals mask = true ->
+  exists a, @Array2D_new RO vals mask sc = FOk a
+    /\ Array2D_native a = @zero_fill RO mask vals /\ a_mask a = mask /\ a_scales a = sc.
+Proof.
+  intros H. unfold Array2D_new. rewrite H. eexists. split; [reflexivity|].
+  unfold Array2D_native. cbn [a_mask a_slim a_scales]. repeat split.
+  unfold slim_from. change (fun (v : T RO) (m : bool) => mul RO v (tofloat (negb m))) with maskmul.
+  rewrite map2_maskmul_slim. rewrite <- (app_nil_r (concat _)). now apply native_from_slim.
+Qed.
+Theorem Array2D_no_mask_native vals sc :
+  exists a, @Array2D_no_mask RO vals sc = FOk a
+    /\ Array2D_native a = vals /\ a_mask a = all_false2 vals /\ a_scales a = sc.
+Proof.
+  unfold Array2D_no_mask. destruct (Array2D_new_native vals (all_false2 vals) sc (same_len2_all_false vals))
+    as [a [H1 [H2 [H3 H4]]]].
+  exists a. split; [exact H1|]. rewrite H2, zero_fill_all_false. auto.
+Qed.
+
+(* ---- header: PIXSCALE for equal scales, PIXSCALEY / PIXSCALEX otherwise; the reader inverts both ---- *)
+Theorem pixel_scale_header_roundtrip (sy sx : R) :
+  @pixel_scales_via_header_from RO (@pixel_scale_header RO (@scales2 RO (sy, sx))) = FOk (sy, sx).
+Proof.
+  unfold pixel_scale_header, scales2. cbn [fst snd forallb nth eqb RO]. rewrite Reqb_refl. cbn [andb].
+  destruct (Reqb sx sy) eqn:E; cbn [andb].
+  - apply Reqb_true in E. subst. reflexivity.
+  - reflexivity.
+Qed.
+Theorem pixel_scale_header_iso (s : R) : @pixel_scale_header RO (@scales2 RO (s, s)) = [(PIXSCALE, s)].
+Proof. unfold pixel_scale_header, scales2. cbn [fst snd forallb nth eqb RO]. now rewrite Reqb_refl. Qed.
+Theorem pixel_scale_header_aniso (sy sx : R) : sy <> sx ->
+  @pixel_scale_header RO (@scales2 RO (sy, sx)) = [(PIXSCALEY, sy); (PIXSCALEX, sx)].
+Proof.
+  intros H. unfold pixel_scale_header, scales2. cbn [fst snd forallb nth eqb RO]. rewrite Reqb_refl.
+  destruct (Reqb sx sy) eqn:E; [apply Reqb_true in E; congruence|reflexivity].
+Qed.
+Theorem pixel_scale_header_1d (s : R) : @pixel_scale_header RO [s] = [(PIXSCALE, s)].
+Proof. unfold pixel_scale_header. cbn [forallb nth eqb RO]. now rewrite Reqb_refl. Qed.
+
+(* ---- HDU route, 2-D arrays and kernels ---- *)
+Lemma flip_unflip {V X} flip (a : list X) (hd : header V) :
+  flip_hdu_for_ds9 flip (hdata (hdu_for_output_from_2d flip a hd)) = a
+  /\ hhdr (hdu_for_output_from_2d flip a hd) = hd.
+Proof.
+  unfold flip_hdu_for_ds9, hdu_for_output_from_2d, flipud. destruct flip; cbn [hdata hhdr]; split; auto using rev_involutive.
+Qed.
+Theorem Array2D_hdu_roundtrip flip (a : @array2d RO) :
+  exists a', Array2D_from_primary_hdu flip (Array2D_hdu_for_output flip a) = FOk a'
+    /\ Array2D_native a' = Array2D_native a
+    /\ a_mask a' = all_false2 (Array2D_native a)
+    /\ a_scales a' = a_scales a.
+Proof.
+  unfold Array2D_from_primary_hdu, Array2D_hdu_for_output.
+  destruct (flip_unflip flip (Array2D_native a) (pixel_scale_header (scales2 (a_scales a)))) as [-> ->].
+  destruct (a_scales a) as [sy sx] eqn:Es. rewrite pixel_scale_header_roundtrip. cbn [fbind].
+  apply Array2D_no_mask_native.
+Qed.
